@@ -12,6 +12,7 @@ A *check* (one per property, in /verif/simcheck) provides
 from __future__ import annotations
 
 import faulthandler
+import builtins
 import hashlib
 import json
 import multiprocessing
@@ -23,6 +24,11 @@ import traceback
 from concurrent.futures import ProcessPoolExecutor, as_completed
 from concurrent.futures.process import BrokenProcessPool
 from typing import Any, Callable, Iterable
+
+def print(*a: Any, **kw: Any) -> None:  # noqa: A001
+    """Messages may quote text that is not valid UTF-8 (lone surrogates): never let that kill the check."""
+    builtins.print(*[x.encode("utf-8", "backslashreplace").decode() if isinstance(x, str) else x for x in a], **kw)
+
 
 VERIF = os.path.dirname(os.path.dirname(os.path.abspath(__file__)))
 EVIDENCE_DIR = os.path.join(VERIF, "evidence")
